@@ -115,6 +115,6 @@ def device_queries(tier):
     return qs
 
 MANIFEST = {
-    "text": "Per-hop lemmas decided on the real xrep.c/xrespond.c (and rep.c/respond.c in C04/C07): receive pushes the arrival pipe id and copies the backtrace up to the terminator unchanged, drops (without disconnecting) when the terminator is not within MAXTTL words, disconnects when the body ends first, never exceeds the 64-byte header; send pops exactly one word and routes the unchanged remainder to exactly that pipe or discards it. Composition over chains of n devices is an induction on n over these lemmas.",
-    "note": "device.c's recv->send loop is argued from its structure; loops die because each traversal adds one word and more than MAXTTL words are dropped.",
+    "text": "Per-hop lemmas decided on the real code: xrep.c/xrespond.c receive pushes the arrival pipe id and copies the backtrace up to the terminator unchanged, drops beyond MAXTTL, disconnects when the body ends first, never exceeds the 64-byte header; send pops exactly one word and routes the unchanged remainder to exactly that pipe or discards it; xreq.c/xsurvey.c move the backtrace to the header on the way up (no terminator / more than the header can hold disconnects) and put header+body on the wire unchanged on the way down; rep.c/respond.c hop-limit boundary (one word beyond MAXTTL is dropped); the real core/device.c forwarder hands each received message to the other socket as the same object with header and body unchanged, alternates recv/send per path, aborts the other path on failure, completes the user aio once with the first error and frees or sends every message exactly once; header capacity kernels of the real message.c. Composition over chains of n devices is an induction on n over these lemmas.",
+    "note": "Loops die because each traversal adds one word and more than MAXTTL words are dropped; the device runs over stub raw sockets (the real raw protocols are the other lemmas).",
 }
